@@ -527,6 +527,32 @@ func (e *c17env) isAdmin() {
 					ok = true
 				}
 			}
+			// or through a sibling that hands its own user parameter on unchanged:
+			// checkAdminOrExplicitPassword(w, r, g, "")
+			if call, isCall := n.(*ast.CallExpr); isCall {
+				if via := p.SrcOfFunc(calleeOf(&CallSite{Call: call, In: ca})); via != nil && via.Decl != nil && via != ca && via.Pkg == ca.Pkg {
+					vinfo := via.Pkg.TypesInfo
+					vparams := via.params(vinfo)
+					ast.Inspect(via.Body(), func(m ast.Node) bool {
+						inner, isC := m.(*ast.CallExpr)
+						if !isC || !fnIs(calleeOf(&CallSite{Call: inner, In: via}), "webserver", "", "isAdminOrExplicitPassword") || len(inner.Args) != 3 {
+							return true
+						}
+						id, isId := unparen(inner.Args[1]).(*ast.Ident)
+						if !isId {
+							return true
+						}
+						for k, po := range vparams {
+							if po != nil && vinfo.Uses[id] == po && k < len(call.Args) && !p.Facts().Analyze(via).assignedVars()[po] {
+								if s, isCS := constString(ca.Pkg.TypesInfo, call.Args[k]); isCS && s == "" {
+									ok = true
+								}
+							}
+						}
+						return true
+					})
+				}
+			}
 			return true
 		})
 		c.Check(ok, "R17.2", "checkAdmin names no user", ca.Pos(), "checkAdmin calls isAdminOrExplicitPassword with user \"\"", "checkAdmin can be satisfied by an ordinary user's password")
